@@ -28,9 +28,10 @@ pub fn make_module() -> KMap {
 
         match ctx.instance_and_args(is_list, expected_error)? {
             (KValue::List(l), [value]) => {
-                let l = l.clone();
                 let value = value.clone();
-                for candidate in l.data().iter() {
+                // An overridden equality operator could access the list, so compare against a copy
+                let candidates = l.data().clone();
+                for candidate in candidates.iter() {
                     match ctx
                         .vm
                         .run_binary_op(BinaryOp::Equal, value.clone(), candidate.clone())
@@ -289,14 +290,14 @@ pub fn make_module() -> KMap {
                     let l = l.clone();
                     let f = f.clone();
 
-                    let mut write_index = 0;
-                    for read_index in 0..l.len() {
-                        let value = l.data()[read_index].clone();
+                    // The predicate could access the list, so the values are taken from a copy
+                    let values = l.data().clone();
+                    let mut retained = ValueVec::with_capacity(values.len());
+                    for value in values.iter() {
                         match ctx.vm.call_function(f.clone(), value.clone()) {
                             Ok(KValue::Bool(result)) => {
                                 if result {
-                                    l.data_mut()[write_index] = value;
-                                    write_index += 1;
+                                    retained.push(value.clone());
                                 }
                             }
                             Ok(unexpected) => {
@@ -308,7 +309,7 @@ pub fn make_module() -> KMap {
                             Err(error) => return Err(error),
                         }
                     }
-                    l.data_mut().resize(write_index, KValue::Null);
+                    *l.data_mut() = retained;
                     l
                 }
                 (KValue::List(l), [value]) => {
@@ -316,7 +317,9 @@ pub fn make_module() -> KMap {
                     let value = value.clone();
 
                     let mut error = None;
-                    l.data_mut().retain(|x| {
+                    // An overridden equality operator could access the list, so filter a copy
+                    let mut values = l.data().clone();
+                    values.retain(|x| {
                         if error.is_some() {
                             return true;
                         }
@@ -342,6 +345,7 @@ pub fn make_module() -> KMap {
                     if let Some(error) = error {
                         return error;
                     }
+                    *l.data_mut() = values;
                     l
                 }
                 (instance, args) => {
@@ -371,9 +375,13 @@ pub fn make_module() -> KMap {
         match ctx.instance_and_args(is_list, expected_error)? {
             (KValue::List(l), []) => {
                 let l = l.clone();
-                let mut data = l.data_mut();
+
+                // Overridden comparison operators could access the list, so sort a copy of its data
+                let mut data = l.data().clone();
                 sort_values(ctx.vm, &mut data)?;
-                Ok(KValue::List(l.clone()))
+                *l.data_mut() = data;
+
+                Ok(KValue::List(l))
             }
             (KValue::List(l), [f]) if f.is_callable() => {
                 let l = l.clone();
